@@ -108,6 +108,7 @@ FloatishByte(c) == IsDigit(c) \/ c \in {43, 45, 46, 95}
 
 StrOf(v) == CASE v.t = "s" -> VStr(v.s)
               [] v.t = "i" -> VStr(IntText(v.n))
+              [] v.t = "I" -> VStr(v.s)
               [] v.t = "b" -> VStr(IF v.n = 1 THEN <<116,114,117,101>> ELSE <<102,97,108,115,101>>)
               [] OTHER -> VUnspec
 
@@ -167,7 +168,9 @@ EvalCall(f, vs, p) ==
        [] f = "int" /\ n = 1 ->
             CASE a1.t = "i" -> a1
               [] a1.t = "f" -> IF a1.d = 0 THEN VInt(a1.n) ELSE VUnspec
-              [] a1.t = "s" -> IF IsIntText(a1.s) THEN VInt(IntOfText(a1.s)) ELSE VUnspec
+              [] a1.t = "s" -> IF IsIntText(a1.s) THEN VInt(IntOfText(a1.s))
+                               ELSE IF BigIntText(a1.s) THEN VBig(CanonInt(a1.s)) ELSE VUnspec      \* every int64 digit is kept
+              [] a1.t = "I" -> a1
               [] OTHER -> VUnspec
        [] f = "float" /\ n = 1 ->
             CASE a1.t = "i" -> VFlt(a1.n, 0)
